@@ -214,6 +214,7 @@ def c16_form(rng: random.Random, big: bool = False, adversarial_text: bool = Fal
             ("omit_instanceID", lambda: rng.choice(["yes", "true"])),
             ("clean_text_values", lambda: rng.choice(["yes", "no"])),
             ("sms_keyword", lambda: "kw"),
+            ("add_none_option", lambda: rng.choice(["yes", "no", "true"])),
         ]
         for key, fn in opts:
             if rng.random() < 0.25:
@@ -225,6 +226,66 @@ def c16_form(rng: random.Random, big: bool = False, adversarial_text: bool = Fal
         if st:
             form["settings"] = [st]
     form["_features"] = sorted(feats)
+    return form
+
+
+DYN_DEFAULTS = ["today()", "now()", "1 + 2", "uuid()", "concat('a', 'b')", "random()"]
+
+
+def nest_form(rng: random.Random) -> dict:
+    """Section nests (repeat in repeat, directly or through groups, groups in repeats, depth 2–4) in which every
+    level carries questions with dynamic defaults (expressions and ${references}), static defaults, triggers
+    and calculations: the output of code that walks the element tree and decides by an element's `type`
+    (dynamic-default setvalues per repeat, templates, trigger setvalues) — placed so that a wrong decision at
+    one level shows up as a moved / duplicated / missing action."""
+    rows, names, n = [], [], [0]
+
+    def fresh(p):
+        n[0] += 1
+        return f"{p}{n[0]}"
+
+    def question(in_repeat):
+        t = rng.choice(["text", "integer", "date", "dateTime", "decimal", "text"])
+        row = {"type": t, "name": fresh("q"), "label": "L" + str(n[0])}
+        r = rng.random()
+        if r < 0.45:
+            if t in ("date",):
+                row["default"] = rng.choice(["today()", "2020-01-01"])
+            elif t == "dateTime":
+                row["default"] = "now()"
+            elif names and rng.random() < 0.35:
+                row["default"] = "${" + rng.choice(names) + "}"
+            else:
+                row["default"] = rng.choice(DYN_DEFAULTS if t == "text" else ["1 + 2", "random()", "7"])
+        elif r < 0.6 and names:
+            row["trigger"] = "${" + rng.choice(names) + "}"
+            row["calculation"] = rng.choice(["now()", "1 + 1", "${" + rng.choice(names) + "}"])
+        elif r < 0.7:
+            row["default"] = rng.choice(["abc", "5"]) if t == "text" else "5"
+        names.append(row["name"])
+        return row
+
+    def section(depth, in_repeat):
+        kind = rng.choice(["repeat", "repeat", "group"]) if depth > 0 else "repeat"
+        row = {"type": f"begin {kind}", "name": fresh("r" if kind == "repeat" else "g"), "label": "S" + str(n[0])}
+        if kind == "repeat" and rng.random() < 0.2:
+            row["repeat_count"] = rng.choice(["2", "${" + names[0] + "}"]) if names else "2"
+        rows.append(row)
+        inner = in_repeat or kind == "repeat"
+        for _ in range(rng.randint(1, 2)):
+            rows.append(question(inner))
+        if depth < rng.randint(1, 3):
+            for _ in range(rng.randint(1, 2)):
+                section(depth + 1, inner)
+                if rng.random() < 0.5:
+                    rows.append(question(inner))
+        rows.append({"type": f"end {kind}"})
+
+    rows.append(question(False))
+    for _ in range(rng.randint(1, 2)):
+        section(0, False)
+    # triggers must point at visible questions defined anywhere; integer/… names were collected in order
+    form = {"survey": rows, "_features": ["nest"]}
     return form
 
 
